@@ -15,7 +15,7 @@ def tier(runs, budget_s, shrink_s=15, recheck=50, workers=16):
     return {"runs": runs, "budget_s": budget_s, "shrink_s": shrink_s, "recheck": recheck, "workers": workers}
 
 CHECKS = {}
-HOOK_COMMITS = ["3be429e", "7e2608d", "61c0b23", "eac9293", "cfa1c30", "8677d1a", "a488376"]
+HOOK_COMMITS = ["3be429e", "7e2608d", "61c0b23", "eac9293", "cfa1c30", "8677d1a", "a488376", "65f3410"]
 
 def check(pid, **kw):
     kw.setdefault("level", "exploration")
